@@ -3,6 +3,7 @@
 From Coq Require Import List NArith ZArith.
 From GoMC Require Import Base.Bytes Base.Dec Gen.Consts Model.C01 Model.C02 Proofs.C01 Proofs.C01_dec Proofs.C01_more
   Proofs.C02_dec Proofs.C02 Proofs.C02_struct Proofs.C02_all Proofs.C02_emb.
+From GoMC Require Import Base.GoInt Model.C02_syntax Gen.C02gen Proofs.C02_expected Proofs.C02_tie Proofs.C02_tie2.
 Import ListNotations.
 Open Scope N_scope.
 
@@ -183,3 +184,113 @@ Print Assumptions C02_fields_unique.
 Print Assumptions C02_fields_dominant.
 Print Assumptions C02_encoder_visits.
 Print Assumptions C02_decoder_stores.
+
+(* ------------------------------------------------------------------------------------------------------------ *)
+(* THE TIE BY TRANSLATION (tools/gotrans/c02.go -> Gen/C02gen.v, regenerated from nbt/encode.go and nbt/typeinfo.go
+   on every run).  Tables and functions extracted from the source, related to the model for every argument. *)
+
+(* getTagTypeByType: the model's tag of a type is the translated `switch vk.Kind()` applied to its kind - for
+   every type of the universe, and for every reflect.Kind (finite sweep) *)
+Theorem C02_kind_table_ok : forall t, Z.of_N (tag_by_ty t) = kind_tag (kind_of t).
+Proof. exact kind_table_ok. Qed.
+Theorem C02_kind_table_sweep : forall k, In k all_kinds -> kind_tag k = Z.of_N (tag_by_ty (type_of_kind k)).
+Proof. exact kind_table_sweep. Qed.
+(* getTagType, slices and arrays: which kinds, and the translated `switch elemType` = arr_of for every element
+   tag; the model's get_tag of a slice is that table on the first element's tag (element type when empty),
+   slices of Marshalers are the translated constant *)
+Theorem C02_elem_table_ok : forall et, Z.of_N (arr_of et) = elem_tag (Z.of_N et).
+Proof. exact elem_table_ok. Qed.
+Theorem C02_seq_tag_ok : forall e l,
+  Z.of_N (get_tag (YSlice e) (GvList l)) =
+  if is_marshaler e then c02_marshaler_elems
+  else elem_tag (Z.of_N (match l with x :: _ => get_tag e x | [] => tag_by_ty e end)).
+Proof. exact seq_tag_ok. Qed.
+Theorem C02_seq_kinds_ok : forall t,
+  existsb (rkind_eqb (kind_of t)) c02_seq_kinds = match t with YSlice _ | YArray _ _ => true | _ => false end.
+Proof. exact seq_kinds_ok. Qed.
+(* writeInt16/32/64: the translated byte expressions (shifts and byte() conversions with Go's wrap-around) are
+   the big-endian encoding of the low 16/32/64 bits, for EVERY integer argument *)
+Theorem C02_writers_ok : forall n,
+  c02_writeInt16 n = map Z.of_N (be 2 (u16 n)) /\ c02_writeInt32 n = map Z.of_N (be 4 (u32 n)) /\
+  c02_writeInt64 n = map Z.of_N (be 8 (u64 n)).
+Proof. intros n. split; [apply writeInt16_ok|split; [apply writeInt32_ok|apply writeInt64_ok]]. Qed.
+(* writeValue: for Short / Int / Long (signed and unsigned kinds: intOf), Float, Double, and Byte per kind, the
+   payload of the tree the model builds is what the translated clause writes through the translated writer *)
+Theorem C02_scalar_write_ok : forall sg w z tr, w = 16 \/ w = 32 \/ w = 64 -> int_tree w z = TOk tr ->
+  exists wp, assocZ c02_scalar_writes (Z.of_N (tag_id tr)) = Some wp /\ map Z.of_N (payload tr) = run_wop wp sg z.
+Proof. exact scalar_write_ok. Qed.
+Theorem C02_float_write_ok : forall b, b < 2 ^ 32 ->
+  exists wp, assocZ c02_scalar_writes nbt_TagFloat = Some wp /\ map Z.of_N (payload (TFloat b)) = run_wop wp true (Z.of_N b).
+Proof. exact float_write_ok. Qed.
+Theorem C02_double_write_ok : forall b, b < 2 ^ 64 ->
+  exists wp, assocZ c02_scalar_writes nbt_TagDouble = Some wp /\ map Z.of_N (payload (TDouble b)) = run_wop wp true (Z.of_N b).
+Proof. exact double_write_ok. Qed.
+Theorem C02_byte_write_ok : forall sg z,
+  exists wp, lookup_kind c02_byte_writes (kind_of (YInt sg 8)) = Some wp /\
+             map Z.of_N (payload (TByte (sx8 (u8 z)))) = run_wop wp sg z.
+Proof. exact byte_write_ok. Qed.
+(* writeTag: the translated statements (tag byte, length check against math.MaxInt16, int16 length, name) give
+   exactly C01.write_tag, error included, for every tag and name *)
+Theorem C02_writeTag_ok : forall t name,
+  run_writeTag (fun n => c02_writeInt16 (wrap_s 16 n)) c02_writeTag (Z.of_N t) (map Z.of_N name) =
+  match write_tag t name with MOk bs => Some (map Z.of_N bs) | _ => None end.
+Proof. exact writeTag_ok. Qed.
+(* the struct field loop of writeValue: one step of the model's fields_enc IS the interpretation of the
+   translated statement list (omitempty, TagEnd refused, list option with its three array tags, writeTag,
+   marshal - in that order) on what the step observes *)
+Theorem C02_field_loop_ok : forall encf encl f fr x vr acc, f_skip (fst f) = false ->
+  fields_enc encf encl (f :: fr) (x :: vr) acc =
+  match run_field c02_field_loop
+          (FObs false (f_omit (fst f)) (is_empty (snd f) x) (Z.of_N (get_tag (snd f) x)) (f_list (fst f))
+                (name_too_long (f_name (fst f)))) 0%Z false with
+  | FSkip => fields_enc encf encl fr vr acc
+  | FErr => TErr
+  | FWrite typ ov =>
+      tbind (if ov then encl (snd f) x else encf (snd f) x)
+            (fun tr => fields_enc encf encl fr vr ((f_name (fst f), tr) :: acc))
+  end.
+Proof. exact field_loop_ok. Qed.
+(* isEmptyValue: the model's is_empty is the translated test of the value's kind *)
+Theorem C02_empty_table_ok : forall t v, has_type t v = true ->
+  is_empty t v = match lookup_kind c02_empty_table (kind_of t) with Some e => eval_etest e v | None => false end.
+Proof. exact empty_table_ok. Qed.
+(* typeFields: the translated parsing of the `nbt` struct tag ("-", the separator, the option names) is the
+   documented grammar, for every tag string *)
+Theorem C02_tag_parse_ok : forall tag, run_tag c02_tag_skip c02_tag_sep c02_tag_opts tag = parse_tag_model tag.
+Proof. exact tag_parse_ok. Qed.
+(* the whole bodies, as statement trees of source text, equal the recorded copy (order of the Marshaler /
+   TextMarshaler tests, the unwrapping loop of getTagType, Encode, marshal, the list and map cases of writeValue,
+   typeFields with its sort order and dominantField, ...) *)
+Theorem C02_skeletons_ok :
+  c02_skel_Encoder_Encode = exp02_skel_Encoder_Encode /\ c02_skel_Encoder_marshal = exp02_skel_Encoder_marshal /\
+  c02_skel_Encoder_writeValue = exp02_skel_Encoder_writeValue /\ c02_skel_intOf = exp02_skel_intOf /\
+  c02_skel_getTagType = exp02_skel_getTagType /\ c02_skel_getTagTypeByType = exp02_skel_getTagTypeByType /\
+  c02_skel_writeTag = exp02_skel_writeTag /\ c02_skel_Encoder_writeListHeader = exp02_skel_Encoder_writeListHeader /\
+  c02_skel_isEmptyValue = exp02_skel_isEmptyValue /\ c02_skel_typeFields = exp02_skel_typeFields /\
+  c02_skel_dominantField = exp02_skel_dominantField /\ c02_skel_byIndex_Less = exp02_skel_byIndex_Less /\
+  c02_iface_order = exp02_iface_order /\ c02_write_clauses = exp02_write_clauses /\
+  c02_tag_key = exp02_tag_key /\ c02_tag_namekey = exp02_tag_namekey /\ c02_tag_legacy = exp02_tag_legacy.
+Proof. repeat split; reflexivity. Qed.
+
+Print Assumptions C02_kind_table_ok.
+Print Assumptions C02_kind_table_sweep.
+Print Assumptions C02_elem_table_ok.
+Print Assumptions C02_seq_tag_ok.
+Print Assumptions C02_seq_kinds_ok.
+Print Assumptions C02_writers_ok.
+Print Assumptions C02_scalar_write_ok.
+Print Assumptions C02_float_write_ok.
+Print Assumptions C02_double_write_ok.
+Print Assumptions C02_byte_write_ok.
+Print Assumptions C02_writeTag_ok.
+Print Assumptions C02_field_loop_ok.
+Print Assumptions C02_empty_table_ok.
+Print Assumptions C02_tag_parse_ok.
+Print Assumptions C02_skeletons_ok.
+
+(* embedded structs: the index sequences of the reachable fields are pairwise different, hence so are the index
+   sequences and the NAMES of the entries of the field table typeFields computes *)
+Theorem C02_table_nodup : forall ds,
+  NoDup (map tf_path (type_fields ds)) /\ NoDup (map (fun tf => f_name (tf_fi tf)) (type_fields ds)).
+Proof. exact type_fields_nodup. Qed.
+Print Assumptions C02_table_nodup.
